@@ -164,6 +164,9 @@ QueryOK(c, lg) ==
          [] E.q = "ClosestToSlot" -> gotRef = ClosestOf(E.anchor, E.slot)
          [] E.q = "CanonAtSlot" -> gotRef \in CanonAtAllowed(c, E.anchor, E.slot, B(E.withblock))
          [] E.q = "GetSlot" -> <<B(r.ok), r.slot>> = GetSlotOf(E.root)
+         \* emitted by the driver only when a result handed out by an earlier CanonicalChain / Search call changed
+         \* its content after a later call (aliasing of an internal buffer): a returned value is a value
+         [] E.q = "ResultStable" -> r.ok = 1
          [] E.q = "Search" ->
               IF E.usepar = 0 /\ E.useslot = 0
               THEN /\ Len(r.canon) = Cardinality(ToSet(r.canon)) /\ Len(r.non) = Cardinality(ToSet(r.non))
@@ -182,6 +185,7 @@ QueryExpected(c) ==
       [] E.q = "ClosestToSlot" -> ClosestOf(E.anchor, E.slot)
       [] E.q = "CanonAtSlot" -> CanonAtAllowed(c, E.anchor, E.slot, B(E.withblock))
       [] E.q = "GetSlot" -> GetSlotOf(E.root)
+      [] E.q = "ResultStable" -> "earlier results unchanged"
       [] E.q = "Search" -> IF E.usepar = 0 /\ E.useslot = 0 THEN "head search (loose)"
                            ELSE SearchOf(c, <<E.anchor, E.slot>>, B(E.usepar), E.parent, B(E.useslot), E.fe, FALSE)
       [] OTHER -> "?"
